@@ -117,6 +117,11 @@ func c07Upstream(rng *rand.Rand, mu *sync.Mutex) dnsserver.Handler {
 		}
 		resp := new(dns.Msg).SetReply(req)
 		resp.RecursionAvailable = true
+		if strings.HasPrefix(low, "signed") {
+			// a validating upstream (RFC 6840, 5.7 and 5.8): the data is authentic, and it says so to those who ask
+			o := req.IsEdns0()
+			resp.AuthenticatedData = req.AuthenticatedData || (o != nil && o.Do())
+		}
 		hdr := func(t uint16) dns.RR_Header { return dns.RR_Header{Name: name, Rrtype: t, Class: dns.ClassINET, Ttl: 3600} }
 		switch q.Qtype {
 		case dns.TypeA:
@@ -307,12 +312,14 @@ func TestVerifC07Stack(t *testing.T) {
 	}
 
 	names := []string{"one.c07.example.", "two.c07.example.", "three.c07.example.", "blocked1.c07.example.", "blocked2.c07.example.",
-		"four.c07.example.", "Five.C07.example."}
+		"four.c07.example.", "Five.C07.example.", "signed1.c07.example.", "signed2.c07.example."}
 	types := []uint16{dns.TypeA, dns.TypeAAAA, dns.TypeHTTPS, dns.TypeTXT, dns.TypeMX, dns.TypeSRV, dns.TypeNS}
 	type job struct {
 		client, netw, name string
 		qt             uint16
 		do             bool
+		ad, opt        bool // the AD bit set in the query; an OPT record without the DO bit
+		ch             bool // CHAOS class: the debug variant of the query
 		conc           *dns.Msg
 		idok, qok      bool
 	}
@@ -320,8 +327,12 @@ func TestVerifC07Stack(t *testing.T) {
 		if j.netw == "doh" || j.netw == "doq" {
 			m := new(dns.Msg).SetQuestion(j.name, j.qt)
 			m.Id = id
-			if j.do {
-				m.SetEdns0(4096, true)
+			m.AuthenticatedData = j.ad
+			if j.ch {
+				m.Question[0].Qclass = dns.ClassCHAOS
+			}
+			if j.do || j.opt {
+				m.SetEdns0(4096, j.do)
 			}
 			b, _ := m.Pack()
 			var raw []byte
@@ -373,8 +384,12 @@ func TestVerifC07Stack(t *testing.T) {
 		}
 		m := new(dns.Msg).SetQuestion(j.name, j.qt)
 		m.Id = id
-		if j.do {
-			m.SetEdns0(4096, true)
+		m.AuthenticatedData = j.ad
+		if j.ch {
+			m.Question[0].Qclass = dns.ClassCHAOS
+		}
+		if j.do || j.opt {
+			m.SetEdns0(4096, j.do)
 		}
 		// dns.Client rejects replies with a foreign id: read them ourselves
 		conn, derr := cl.Dial(addr)
@@ -401,7 +416,7 @@ func TestVerifC07Stack(t *testing.T) {
 		for c := 0; c < nclients; c++ {
 			for i := 0; i < per; i++ {
 				jobs[c] = append(jobs[c], &job{client: fmt.Sprintf("127.0.0.%d", 10+c), netw: []string{"udp", "udp", "tcp", "doh", "doh", "doq", "tcp", "tcp-abort"}[rng.Intn(8)],
-					name: names[rng.Intn(len(names))], qt: types[rng.Intn(len(types))], do: rng.Intn(4) == 0})
+					name: names[rng.Intn(len(names))], qt: types[rng.Intn(len(types))], do: rng.Intn(4) == 0, ad: rng.Intn(3) == 0, opt: rng.Intn(2) == 0, ch: rng.Intn(8) == 0})
 			}
 		}
 		var wg sync.WaitGroup
@@ -427,7 +442,7 @@ func TestVerifC07Stack(t *testing.T) {
 				}
 				cd, sd := c07Digest(j.conc), c07Digest(seq)
 				out.Emit(c07Resp{Ev: "Resp", Client: j.client, Prof: prof, Net: j.netw, Name: j.name, QType: j.qt, IDOK: j.idok, QOK: j.qok,
-					Conc: cd, Seq: sd, Same: cd == sd && j.conc != nil, ShapeOK: c07ShapeOK(prof, j.name, j.qt, j.conc)})
+					Conc: cd, Seq: sd, Same: cd == sd && j.conc != nil, ShapeOK: c07ShapeOK(prof, j.name, j.qt, j.conc) && c07ADOK(j.name, j.ad, j.do, j.conc)})
 			}
 		}
 	}
@@ -489,6 +504,16 @@ func c07TLSConfig(t testing.TB) *tls.Config {
 }
 
 // c07ShapeOK judges blocked A answers only.
+// c07ADOK: the AD bit of an answer belongs to its own request: authentic data is
+// marked as such for exactly those who asked (AD or DO in their query), whoever
+// filled the cache.
+func c07ADOK(name string, ad, do bool, m *dns.Msg) bool {
+	if m == nil || !strings.HasPrefix(strings.ToLower(name), "signed") || m.Rcode != dns.RcodeSuccess {
+		return true
+	}
+	return m.AuthenticatedData == (ad || do)
+}
+
 func c07ShapeOK(prof, name string, qt uint16, m *dns.Msg) bool {
 	if m == nil || qt != dns.TypeA || !strings.HasPrefix(strings.ToLower(name), "blocked") {
 		return true
